@@ -295,22 +295,21 @@ def _stragglers(case, root):
 
 
 def _needs_resow(case, root):
-    """'the crop's sown files are incomplete': settings unreadable, batch files missing or unreadable."""
+    """'the crop's sown files are incomplete', as far as the library itself lets a user see it: the crop cannot be loaded,
+    was never prepared, or reports fewer sown batches than its number of batches (or no results folder).  Nothing is
+    read behind the library's back: a batch file that exists under its final name counts as sown."""
+    import xyzpy
     loc = cropkit.crop_dir(root, NAME)
     try:
-        info = cropkit.read_pickle(os.path.join(loc, "xyz-settings.jbdmp"))
-        cropkit.read_pickle(os.path.join(loc, "xyz-function.clpkl"))
+        with quiet():
+            crop = xyzpy.Crop(name=NAME, parent_dir=root)
+            if not crop.is_prepared():
+                return True
+            if crop.num_batches is None or crop.num_sown_batches != crop.num_batches:
+                return True
     except Exception:
         return True
-    files = cropkit.batch_files(root, NAME)
-    if sorted(files) != list(range(1, info["num_batches"] + 1)):
-        return True
-    try:
-        for p in files.values():
-            cropkit.read_pickle(p)
-    except Exception:
-        return True
-    if not os.path.isdir(os.path.join(loc, "results")):
+    if not os.path.isdir(os.path.join(loc, "results")) or not os.path.exists(os.path.join(loc, "xyz-function.clpkl")):
         return True
     return False
 
@@ -341,6 +340,22 @@ def setup(ctx):
     """Warm the parent (zygote) so that forked children do not each pay first-use costs
     (xarray backend discovery, cloudpickle, pandas pickling...)."""
     import xyzpy
+    # the processes' temporary directory ($TMPDIR) is on ANOTHER file system than the crop whenever this machine has one
+    # (node-local /tmp against a shared work directory is the normal cluster layout): a move from there into the crop is a
+    # copy, not a rename, and every forked victim / recovery process inherits the setting
+    import tempfile
+    import atexit
+    import shutil as _sh
+    shm = "/dev/shm"
+    try:
+        if os.path.isdir(shm) and os.access(shm, os.W_OK) and os.stat(shm).st_dev != os.stat(tempfile.gettempdir()).st_dev:
+            d = tempfile.mkdtemp(prefix="vf-C10-tmpdir-", dir=shm)
+            tempfile.tempdir = d
+            os.environ["TMPDIR"] = d
+            atexit.register(_sh.rmtree, d, True)
+            ctx.count("runs_with_tmpdir_on_another_filesystem")
+    except OSError:
+        pass
     root = ctx.mkdtemp("warm")
     for farmer in ("harvester", "sampler", "raw"):
         case = {"farmer": farmer, "victim": "reap", "n": 3, "bs": 2, "shuffle": True, "grown": [], "idx": 0}
